@@ -51,6 +51,7 @@ type PReply struct {
 func (p *PReply) Reset() { *p = PReply{} }
 
 type srvRig struct {
+	opts           srvOpts
 	s              *server.Server
 	ln             net.Listener
 	addr           string
@@ -308,7 +309,7 @@ func newSrvRig(o srvOpts) (*srvRig, error) {
 		opts = append(opts, server.WithAsyncWrite())
 	}
 	s := server.NewServer(opts...)
-	r := &srvRig{s: s, invoked: map[int]int{}, gates: map[int]chan struct{}{}, started: map[int]chan struct{}{}}
+	r := &srvRig{opts: o, s: s, invoked: map[int]int{}, gates: map[int]chan struct{}{}, started: map[int]chan struct{}{}}
 	svc := &rigSvc{r}
 	if err := s.RegisterName("Svc", svc, ""); err != nil {
 		return nil, err
